@@ -231,6 +231,9 @@ def run_check(prop, tier, base_seed, jobs=None, replay_dir=None, max_runs=None, 
             ok, why = gate(prop, plan, c, out['fp'], tmp)
             if not ok:
                 gate_failures.append('%s: %s' % (c, why))
+                gdir = os.path.join(VERIF, 'replays', prop.id); os.makedirs(gdir, exist_ok=True)
+                with open(os.path.join(gdir, 'gatefail-%d.json' % seed), 'w') as f:
+                    json.dump({'property': prop.id, 'seed': seed, 'class': c, 'plan': plan}, f)
                 continue
             small, steps = shrink(prop, plan, c, tmp, jobs, budget_s=90 if tier == 'quick' else 300)
             rdir = replay_dir or os.path.join(VERIF, 'replays', prop.id)
